@@ -452,6 +452,55 @@ fn c17(args: &[String]) {
                     w.run_case(&format!("byte/{pos}={val:#04x}"), &s, false);
                     j += nthreads;
                 }
+                // family 7: every 16-bit value in all five date/time words of a short entry x boundary values of the 10 ms byte
+                // (field combinations that a single-byte sweep cannot reach)
+                if !subset {
+                    let mut tw = t as u32;
+                    while tw < 65536 {
+                        for hi in [0u8, 99, 100, 199, 200, 255] {
+                            let mut s = mk_sfn_slot(&SFN_A, 0x20, 0, 0x10);
+                            s[13] = hi;
+                            for o in [14usize, 16, 18, 22, 24] {
+                                s[o..o + 2].copy_from_slice(&(tw as u16).to_le_bytes());
+                            }
+                            w.run_case(&format!("times/{tw:#06x}/{hi}"), &[s], false);
+                        }
+                        tw += nthreads as u32;
+                    }
+                }
+                // family 8: every value of every name byte of the short entry, the 2-slot run in front of it carrying the checksum
+                // of THAT name (valid runs in front of unusual short names: 0x05 lead byte, bytes >= 0x80, blanks)
+                if !subset {
+                    let units: Vec<u16> = (0..20).map(|i| 0x61 + i as u16).collect();
+                    let mut j = t;
+                    while j < 11 * 256 {
+                        let (pos, val) = (j / 256, (j % 256) as u8);
+                        let mut sfn = SFN_A;
+                        sfn[pos] = val;
+                        let mut s = mk_lfn_run(&units, &sfn);
+                        s.push(mk_sfn_slot(&sfn, 0x20, 0, 0x1234));
+                        w.run_case(&format!("sfnsweep/{pos}={val:#04x}"), &s, false);
+                        j += nthreads;
+                    }
+                }
+                // family 9: every value of every byte of a short entry that has NO long-name run in front of it (file_name() takes
+                // the 8.3 path), under every case-flag combination, for a name with extension, one without, a full 8.3 name
+                // with escaped 0xE5 lead byte
+                if !subset {
+                    for (bi, base) in [SFN_A, *b"DOCS       ", *b"\x05BCDEFGHIJK"].iter().enumerate() {
+                        for nt in [0u8, 0x08, 0x10, 0x18] {
+                            let mut j = t;
+                            while j < 32 * 256 {
+                                let (pos, val) = (j / 256, (j % 256) as u8);
+                                let mut s = mk_sfn_slot(base, 0x20, 0, 0x1234);
+                                s[12] = nt;
+                                s[pos] = val;
+                                w.run_case(&format!("sfnonly/{bi}/{nt:#04x}/{pos}={val:#04x}"), &[s], false);
+                                j += nthreads;
+                            }
+                        }
+                    }
+                }
                 if thorough {
                     // family 5: all pairs of byte positions on 16 boundary values
                     let mut pair = t;
